@@ -271,6 +271,13 @@ def trans (A : Mat) : Mat :=
 /-- `A.H` / `A.ctrans()` -/
 def ctrans (A : Mat) : Mat := let T := trans A; { T with buf := T.buf.map Num.conj }
 
+/-- `A.real()`: the real part as a real matrix; for integer and real matrices a copy -/
+def real (A : Mat) : Mat := if A.tc = .z then { A with tc := .d, buf := A.buf.map fun a => ⟨a.re, 0⟩ } else A
+
+/-- `A.imag()`: the imaginary part as a real matrix; for integer and real matrices a zero matrix of the same type -/
+def imag (A : Mat) : Mat :=
+  if A.tc = .z then { A with tc := .d, buf := A.buf.map fun a => ⟨a.im, 0⟩ } else { A with buf := A.buf.map fun _ => Num.zero }
+
 /-- `A.size = (m, n)` -/
 def reshape (A : Mat) (m n : Int) : Except Err Mat :=
   if m < 0 || n < 0 then .error .type
